@@ -131,6 +131,7 @@ def generate(c, registry=REGISTRY):
                 except Unsupported as e:
                     raise Unsupported(f"returned value of type {T.show(val.ty)} is not {T.show(rty)}")
             post.ghost['result'] = val
+            post.ghost['__final__'] = st      # final values of locals: spec function final('name')
             for text, expr in c.parsed('ensures'):
                 g = spec_eval(ctx, ev, post, expr)
                 ctx.oblige(post, g, 'ensures', fn, f"ensures {text}")
